@@ -681,6 +681,26 @@ def random_records(chk, rng, n_rand, n_lists, n_big):
             continue
         rid += 1
         add({"id": rid, "k": "enc", "l": [as_rec(t) for t in l], "o": list(o)}, l=l, o=o, where="list")
+        # ONE Tag object refilled for every member of the list (Tag.set / set_app_data, what Atomic.encode(tag) does with a
+        # tag it is handed) and encoded after each refill: the octets are those of the current content
+        try:
+            reused = Tag()
+            ro = b""
+            for t in l:
+                if t[0] == 0 and t[1] != 1:                 # application class, not boolean: the set_app_data path
+                    reused.set_app_data(t[1], t[3])
+                else:
+                    reused.set(t[0], t[1], t[2], t[3])
+                p1 = PDUData()
+                reused.encode(p1)
+                ro += bytes(p1.pduData)
+        except Exception as e:
+            ro = "%s: %s" % (type(e).__name__, e)
+        if not isinstance(ro, bytes):
+            chk.violation("EncodeEqualsSpec", {"api": "Tag (reused object)", "case": sorted(set(tag_case(t) for t in l))}, {"list": rp["tags"], "raised": ro}, rp)
+        elif ro != o:
+            rid += 1
+            add({"id": rid, "k": "enc", "l": [as_rec(t) for t in l], "o": list(ro)}, l=l, o=ro, where="list-reused-tag")
         rid += 1
         add(dec_record(chk, rid, o, rng, "encoded"), b=o, where="encoded")
         for _ in range(3):
